@@ -2,7 +2,7 @@
 From Coq Require Import ZArith QArith List String Bool Arith.
 Import ListNotations.
 From Coq Require Import Qcanon.
-From HolpyV Require Import ProdSimp ProdSimpSound TruthTable Alethe AletheSound Alethe2 Alethe2Sound AletheRes AletheResSound LaGeneric LaGenericSound.
+From HolpyV Require Import ProdSimp ProdSimpSound TruthTable Alethe AletheSound Alethe2 Alethe2Sound AletheRes AletheResSound AletheSimp AletheSimpSound LaGeneric LaGenericSound.
 
 (* Whenever the model of a veriT rule evaluation (13 propositional rules:
    not_or not_and not_not implies and_pos or_pos not_equiv1/2 equiv1/2 and or
@@ -61,6 +61,21 @@ Example C18_th_resolution_example :
   /\ accept_res [PAtom 2] [2; 2; 1]%nat [POr (PAtom 0) (PAtom 1); POr (PNot (PAtom 0)) (PAtom 2); PNot (PAtom 1)] = Some (PAtom 2)
   /\ accept_res [PAtom 1] [2; 2; 1]%nat [POr (PAtom 0) (PAtom 1); POr (PNot (PAtom 0)) (PAtom 2); PNot (PAtom 1)] = None.
 Proof. repeat split; vm_compute; reflexivity. Qed.
+
+(* The boolean simplification rules (not_simplify, and_simplify, or_simplify, implies_simplify as
+   repaired, equiv_simplify, bool_simplify): whenever the model of macro.eval accepts lhs <--> rhs,
+   the equivalence holds in every valuation (the rules have no premises). *)
+Theorem C18_simplify_sound : forall rule args prems c,
+  accept_simp rule args prems = Some c -> forall v, pholds v c = true.
+Proof. exact accept_simp_sound. Qed.
+Print Assumptions C18_simplify_sound.
+
+(* history: before the "fix: implies_simplify compares ..." commit case 9 looked at the premise of
+   the left side only: (((P --> Q) --> Q) --> R) <--> P | Q was accepted *)
+Theorem C18_implies_simplify_historical_refuted :
+  exists g c v, acc_implies_simplify_gen false [g] [] = Some c /\ pholds v c = false /\ acc_implies_simplify [g] [] = None.
+Proof. exact implies_simplify_historical_refuted. Qed.
+Print Assumptions C18_implies_simplify_historical_refuted.
 
 (* The validity oracle used for every accepted step of every exercised rule. *)
 Theorem C18_entails_tt_spec : forall G c,
